@@ -35,6 +35,7 @@ import io
 import logging
 import os
 import tempfile
+import traceback
 from datetime import datetime
 from pathlib import Path
 from unittest import mock
@@ -89,7 +90,9 @@ class Script:
         return v
 
     # -- world ---------------------------------------------------------------------------
-    def world(self, trial_id, n_reports_so_far):
+    def world(self, trial_id, epoch):
+        """``epoch`` = resource level the worker has reached (0 = nothing reported yet); only used by the
+        generator (first report before completion, ``max_epochs``)."""
         def gen():
             p, r = self.profile, self.rng
             if self.drain:
@@ -105,8 +108,13 @@ class Script:
             k = r.randint(0, p.get("max_reports", 3))
             if r.random() < p.get("p_silent", 0.15):
                 k = 0
-            if status == "Completed" and n_reports_so_far + k == 0 and r.random() < p.get("p_first_report", 0.85):
+            if status == "Completed" and epoch + k == 0 and r.random() < p.get("p_first_report", 0.85):
                 k = 1  # a trial completing without ever reporting makes the tuner raise; keep that rare
+            max_epochs = p.get("max_epochs")
+            if max_epochs is not None:  # training scripts of real schedulers stop after max_epochs reports
+                k = max(0, min(k, max_epochs - epoch))
+                if epoch + k >= max_epochs and status in ("InProgress", "Stopping"):
+                    status = "Completed"
             reps = []
             for _ in range(k):
                 self._ts += 1
@@ -191,7 +199,9 @@ def make_backend_class():
         code calls ``_all_trial_results``. ``_stop_trial`` -> Stopped, ``_pause_trial`` -> Paused,
         ``_schedule`` -> InProgress (LocalBackend's marker files behave the same way).
         Reports are dicts ``{"m", "epoch", "idx", st_worker_cost, st_worker_time, st_worker_timestamp}``;
-        ``idx`` is the 0-based position in the trial's metrics list."""
+        ``idx`` is the 0-based position in the trial's metrics list, ``epoch`` the resource level for real
+        schedulers: it counts reports, and a resumed run continues after the epoch at which it was paused
+        (as a training script restarted from the checkpoint of that moment would)."""
 
         def __init__(self, script, log, config_key="x"):
             super().__init__(delete_checkpoints=False)
@@ -210,7 +220,7 @@ def make_backend_class():
         def _schedule(self, trial_id, config):
             w = self.workers.get(trial_id)
             if w is None:
-                self.workers[trial_id] = dict(status="InProgress", metrics=[], config=config,
+                self.workers[trial_id] = dict(status="InProgress", metrics=[], config=config, epoch=0,
                                               created=datetime(2020, 1, 1))
             else:
                 w["status"] = "InProgress"
@@ -221,10 +231,11 @@ def make_backend_class():
             for t in trial_ids:
                 w = self.workers[t]
                 if w["status"] in ACTIVE:
-                    reps, status = self.script.world(t, len(w["metrics"]))
+                    reps, status = self.script.world(t, w["epoch"])
                     for metric, cost, ts in reps:
                         idx = len(w["metrics"])
-                        w["metrics"].append({"m": metric, "epoch": idx + 1, "idx": idx, "trial": t,
+                        w["epoch"] += 1
+                        w["metrics"].append({"m": metric, "epoch": w["epoch"], "idx": idx, "trial": t,
                                              ST_WORKER_COST: cost, ST_WORKER_TIME: float(idx + 1),
                                              ST_WORKER_TIMESTAMP: ts})
                     w["status"] = status
@@ -233,7 +244,10 @@ def make_backend_class():
             return res
 
         def _pause_trial(self, trial_id, result):
-            self.workers[trial_id]["status"] = "Paused"
+            w = self.workers[trial_id]
+            w["status"] = "Paused"
+            if result is not None and "epoch" in result:
+                w["epoch"] = result["epoch"]  # the checkpoint a resumed run starts from (later reports are lost)
 
         def _stop_trial(self, trial_id, result):
             self.workers[trial_id]["status"] = "Stopped"
@@ -531,6 +545,7 @@ def run_tuner(params, script, scheduler_factory=None, hard_limit=400):
 
     trace = []
     log = trace.append
+    logging.disable(logging.CRITICAL)
     backend = make_backend_class()(script, log)
     if scheduler_factory is None:
         scheduler = make_scheduler_class()(script, log)
@@ -547,7 +562,6 @@ def run_tuner(params, script, scheduler_factory=None, hard_limit=400):
     outcome = ["normal"]
     aborted = False
     sink = io.StringIO()
-    logging.disable(logging.CRITICAL)
     old_folder = os.environ.get("SYNETUNE_FOLDER")
     try:
         with tempfile.TemporaryDirectory(prefix="verif-tuner-") as tmp, \
@@ -564,16 +578,19 @@ def run_tuner(params, script, scheduler_factory=None, hard_limit=400):
             except HarnessAbort:
                 aborted = True
                 outcome = ["aborted"]
-            except AssertionError as e:
-                if backend.last_resume_error is not None:
+            except Exception as e:  # canonical small enum; anything not raised by tuner/backend code is "exception"
+                where = os.path.basename(traceback.extract_tb(e.__traceback__)[-1].filename)
+                if isinstance(e, AssertionError) and where == "trial_backend.py" and backend.last_resume_error is not None:
                     kind, t = backend.last_resume_error
                     outcome = ["resume_" + kind, t]
-                else:
+                elif isinstance(e, AssertionError) and where == "tuner.py":
                     outcome = ["assert_budget"]
-            except ValueError as e:
-                # both ValueErrors of tuner.py read the trial's stdout right before raising
-                outcome = ["failure_limit" if backend.last_stdout_after_stop_all else "no_metrics",
-                           backend.last_stdout_trial]
+                elif isinstance(e, ValueError) and where == "tuner.py":
+                    # both ValueErrors of tuner.py read the trial's stdout right before raising
+                    outcome = ["failure_limit" if backend.last_stdout_after_stop_all else "no_metrics",
+                               backend.last_stdout_trial]
+                else:
+                    outcome = ["exception", type(e).__name__, where, str(e)[:200]]
             status = tuner.tuning_status
             smap = [[t, status_name(s)] for t, s in status.last_trial_status_seen.items()]
             counters = dict(started=status.num_trials_started, completed=status.num_trials_completed,
